@@ -129,12 +129,15 @@ def cenc (given : Option Name) (chunks : List (List Nat)) : String :=
 /-- `sread given force chunk…`: `newchars` of every turn of the `read()` loop of the CSS stream reader over
 CPython's inner decoders | 1 if the reader is still waiting at the end | one-shot -/
 def sread (given : Option Name) (force : Bool) (chunks : List (List Nat)) : String :=
-  let rec go (s : RSt) (cs : List (List Nat)) (acc : List String) : RSt × List String :=
+  let rec go (s : RSt) (cs : List (List Nat)) (acc : List String) : Option RSt × List String :=
     match cs with
-    | [] => (s, acc.reverse)
-    | c :: cs => let r := rstep cpyInner force s c; go r.1 cs (encCps r.2 :: acc)
+    | [] => (some s, acc.reverse)
+    | c :: cs => match rstepE cpyInner force s c with
+      | none => (none, ("RAISE" :: acc).reverse)
+      | some r => go r.1 cs (encCps r.2 :: acc)
   let r := go (.waiting given []) chunks []
-  " ".intercalate r.2 ++ " | " ++ (match r.1 with | .waiting _ _ => "W" | .reading _ _ => "R") ++ " | " ++
+  " ".intercalate r.2 ++ " | " ++
+    (match r.1 with | none => "X" | some (.waiting _ _) => "W" | some (.reading _ _) => "R") ++ " | " ++
     encCps (oneShot cpyInner given force chunks.flatten)
 
 def swrite (given : Option Name) (chunks : List (List Nat)) : String :=
